@@ -246,9 +246,20 @@ func checkRaw(c mergeCase) (fl *harness.Failure) {
 		}
 		return nil
 
-	case "slices":
-		_, ls := buildAll(c.Left)
-		_, rs := buildAll(c.Right)
+	case "slices", "documents":
+		ldoc, ls := buildAll(c.Left)
+		rdoc, rs := buildAll(c.Right)
+		if c.Mode == "documents" {
+			// the documented third route to a list merge: MergeDocuments merges the root records of two
+			// documents (nil = empty) into a new document that "will have a deep copy of all nodes"
+			ls, rs = ldoc.Nodes(), rdoc.Nodes()
+			if len(ls) == 0 && c.MutIdx%2 == 0 {
+				ldoc = nil
+			}
+			if len(rs) == 0 && c.MutIdx%3 == 0 {
+				rdoc = nil
+			}
+		}
 		lt, rt := texts(ls), texts(rs)
 		inputs := tu.NewIdentity(append(append(gedcom.Nodes{}, ls...), rs...)...)
 		usedRight := map[gedcom.Node]int{}
@@ -279,7 +290,16 @@ func checkRaw(c mergeCase) (fl *harness.Failure) {
 			}
 			return m
 		}
-		res := gedcom.MergeNodeSlices(ls, rs, target, fn)
+		var res gedcom.Nodes
+		if c.Mode == "documents" {
+			out := gedcom.MergeDocuments(ldoc, rdoc, target, fn)
+			if out == nil {
+				return harness.Failf("merge-documents-nil", "MergeDocuments returned nil")
+			}
+			res = out.Nodes()
+		} else {
+			res = gedcom.MergeNodeSlices(ls, rs, target, fn)
+		}
 		if fnFail != nil {
 			return fnFail
 		}
@@ -371,11 +391,11 @@ func directional(lists ...[]*gen.NodeBP) bool {
 
 func TestCheckMerge(t *testing.T) {
 	s := harness.NewSub("merge-nodes-and-slices",
-		"MergeNodes on pairs of trees with the same root tag (independent, or an edited/permuted copy so that children overlap), MergeNodes(t,t), the error contract (nil side / different root tags), and MergeNodeSlices on pairs of node lists (0..5 trees each, overlapping and disjoint, duplicates) with the equality, always-merge and never-merge functions; each followed by a mutation of the result (add/delete/replace children at a random node, or add a leaf below every node); non-trivial = both sides have >= 2 children (elements) with >= 1 equal pair and >= 1 right-only child")
+		"MergeNodes on pairs of trees with the same root tag (one tree in 30 with 40..160 further children under one node; independent, or an edited/permuted copy so that children overlap), MergeNodes(t,t), the error contract (nil side / different root tags), and MergeNodeSlices - directly and through MergeDocuments on two documents, a nil document for an empty side included - on pairs of node lists (0..5 trees each, overlapping and disjoint, duplicates) with the equality, always-merge and never-merge functions; each followed by a mutation of the result (add/delete/replace children at a random node, or add a leaf below every node); non-trivial = both sides have >= 2 children (elements) with >= 1 equal pair and >= 1 right-only child")
 	s.Rapid(t, harness.Share(harness.Pick(100000, 10000000)), 90, func(rt *rapid.T) {
 		c := mergeCase{MutIdx: rapid.IntRange(0, 40).Draw(rt, "mutidx"), MutOp: rapid.SampledFrom([]string{"add", "delete", "setnil", "leaves", "leaves"}).Draw(rt, "mutop")}
-		c.Mode = rapid.SampledFrom([]string{"nodes", "nodes", "nodes", "self", "slices", "slices", "error"}).Draw(rt, "mode")
-		tree := gen.EqTree(gen.EqTreeOpts{MaxNodes: 16, Roles: true})
+		c.Mode = rapid.SampledFrom([]string{"nodes", "nodes", "nodes", "self", "slices", "slices", "error", "documents"}).Draw(rt, "mode")
+		tree := gen.EqTree(gen.EqTreeOpts{MaxNodes: 16, Roles: true, Wide: 30})
 		small := gen.EqTree(gen.EqTreeOpts{MaxNodes: 6, Roles: true})
 		nt := false
 		switch c.Mode {
@@ -393,7 +413,7 @@ func TestCheckMerge(t *testing.T) {
 				r.Kids = append(r.Kids, extra.Kids...)
 				r.Value = extra.Value
 			} else {
-				r = gen.EqTree(gen.EqTreeOpts{MaxNodes: 16, Roots: []string{l.Tag}, Roles: true}).Draw(rt, "right")
+				r = gen.EqTree(gen.EqTreeOpts{MaxNodes: 16, Roots: []string{l.Tag}, Roles: true, Wide: 30}).Draw(rt, "right")
 			}
 			c.Left, c.Right = []*gen.NodeBP{l}, []*gen.NodeBP{r}
 			nt = len(l.Kids) >= 2 && len(r.Kids) >= 2
@@ -411,7 +431,7 @@ func TestCheckMerge(t *testing.T) {
 				c.Left, c.Right = []*gen.NodeBP{small.Draw(rt, "l")}, []*gen.NodeBP{small.Draw(rt, "r")}
 			}
 			nt = true
-		case "slices":
+		case "slices", "documents":
 			c.Fn = rapid.SampledFrom([]string{"equality", "equality", "always", "never"}).Draw(rt, "fn")
 			nl, nr := rapid.IntRange(0, 5).Draw(rt, "nl"), rapid.IntRange(0, 5).Draw(rt, "nr")
 			for i := 0; i < nl; i++ {
@@ -430,8 +450,15 @@ func TestCheckMerge(t *testing.T) {
 		if c.Fn != "" {
 			cls = append(cls, "fn:"+c.Fn)
 		}
+		wide := false
+		for _, t := range append(append([]*gen.NodeBP{}, c.Left...), c.Right...) {
+			wide = wide || gen.MaxFanout(t) >= 40
+		}
+		if wide {
+			cls = append(cls, "wide:>=40-siblings")
+		}
 		s.Eval(harness.JSON(c), nt, cls...)
-		if nt {
+		if nt && !wide {
 			s.MaybeSample(c)
 		}
 		if fl := check(c); fl != nil {
